@@ -626,4 +626,127 @@ example : reconstructL (ℓ := Nat) (fun _ => some 2) (0 : Nat) LState.init
     ((volBatchesL 7 [([(5, 3), (6, 9)], 11)])) = ([([5, 6], [11], 7)], none) := by decide
 example : stateWritesOk expectedStateWrites = true := by decide
 
+/-! ## Phase 4 — the 3-D branch of `evaluate`: `volume.transpose(1, 2).reshape(sc * z, c, x, y)`
+
+`evalReshape` (what the driver executes against the real `evaluate` with `ndim = 3`) merges the slice and the
+frame axis.  Row `j` of the tensor handed to the metrics is frame `j % z` of slice `j / z`
+(`eval3d_rows_spec`, `eval3d_entry`); `j ↦ (j / z, j % z)` enumerates the (slice, frame) pairs in
+lexicographic order, every pair exactly once, for every `sc` and `z`, empty volumes and `z = 0` included
+(`eval3d_index_enum`, `eval3d_index_bij`). -/
+
+
+/-- the rows of the merged tensor, in order, are the (slice, frame) pairs in lexicographic order: every pair
+exactly once, none out of order, for all `sc`, `z` -/
+theorem eval3d_index_enum (sc z : Nat) :
+    (List.range (sc * z)).map (evalSrc z) =
+      (List.range sc).flatMap fun s => (List.range z).map fun t => (s, t) := by
+  induction sc with
+  | zero => simp
+  | succ n ih =>
+    rw [Nat.succ_mul, List.range_add, List.map_append, ih, List.range_succ, List.flatMap_append]
+    congr 1
+    simp only [List.flatMap_cons, List.flatMap_nil, List.append_nil, List.map_map]
+    apply List.map_congr_left
+    intro t ht
+    have htz : t < z := List.mem_range.mp ht
+    simp only [Function.comp, evalSrc, Prod.mk.injEq]
+    constructor
+    · rw [Nat.mul_comm, Nat.mul_add_div (by omega), Nat.div_eq_of_lt htz]; omega
+    · rw [Nat.mul_comm, Nat.mul_add_mod, Nat.mod_eq_of_lt htz]
+
+/-- `evalSrc z` is a bijection `[0, sc * z) → [0, sc) × [0, z)` with inverse `(s, t) ↦ s * z + t`, strictly monotone
+for the lexicographic order -/
+theorem eval3d_index_bij (sc z : Nat) :
+    (∀ j, j < sc * z → (evalSrc z j).1 < sc ∧ (evalSrc z j).2 < z ∧ (evalSrc z j).1 * z + (evalSrc z j).2 = j) ∧
+    (∀ s t, s < sc → t < z → s * z + t < sc * z ∧ evalSrc z (s * z + t) = (s, t)) ∧
+    (∀ j j', j < j' → j' < sc * z →
+      (evalSrc z j).1 < (evalSrc z j').1 ∨ ((evalSrc z j).1 = (evalSrc z j').1 ∧ (evalSrc z j).2 < (evalSrc z j').2)) := by
+  refine ⟨?_, ?_, ?_⟩
+  · intro j hj
+    have hz : 0 < z := by
+      rcases Nat.eq_zero_or_pos z with h | h
+      · subst h; simp at hj
+      · exact h
+    refine ⟨(Nat.div_lt_iff_lt_mul hz).mpr hj, Nat.mod_lt _ hz, ?_⟩
+    simp only [evalSrc]; rw [Nat.mul_comm]; exact Nat.div_add_mod j z
+  · intro s t hs ht
+    refine ⟨?_, ?_⟩
+    · calc s * z + t < s * z + z := by omega
+        _ = (s + 1) * z := by rw [Nat.succ_mul]
+        _ ≤ sc * z := Nat.mul_le_mul_right z hs
+    · simp only [evalSrc, Prod.mk.injEq]
+      constructor
+      · rw [Nat.mul_comm, Nat.mul_add_div (by omega), Nat.div_eq_of_lt ht]; omega
+      · rw [Nat.mul_comm, Nat.mul_add_mod, Nat.mod_eq_of_lt ht]
+  · intro j j' hlt hj'
+    simp only [evalSrc]
+    have hz : 0 < z := by
+      rcases Nat.eq_zero_or_pos z with h | h
+      · subst h; simp at hj'
+      · exact h
+    have h1 := Nat.div_add_mod j z
+    have h2 := Nat.div_add_mod j' z
+    have hle : j / z ≤ j' / z := Nat.div_le_div_right (by omega)
+    rcases Nat.lt_or_eq_of_le hle with h | h
+    · exact Or.inl h
+    · refine Or.inr ⟨h, ?_⟩
+      rw [h] at h1; omega
+
+
+
+/-- the tensor the metrics see, row by row: row `j` collects frame `j % z` of every channel of slice `j / z` -/
+theorem eval3d_rows_spec {β} (z : Nat) (vol : List (List (List β))) :
+    evalReshape z vol =
+      (List.range (vol.length * z)).map fun j => (vol.getD (evalSrc z j).1 []).filterMap (·[(evalSrc z j).2]?) := by
+  have hvol : vol = (List.range vol.length).map fun s => vol.getD s [] := by
+    apply List.ext_getElem
+    · simp
+    · intro i h1 h2; simp [List.getElem?_eq_getElem h1]
+  have h : evalReshape z vol =
+      ((List.range vol.length).flatMap fun s => (List.range z).map fun t => (s, t)).map
+        fun p => (vol.getD p.1 []).filterMap (·[p.2]?) := by
+    conv_lhs => rw [hvol]
+    simp only [evalReshape, transpose12, List.map_map, List.flatMap_def, Function.comp_def]
+    rw [List.map_flatten, List.map_map]
+    simp only [Function.comp_def, List.map_map]
+  rw [h, ← eval3d_index_enum, List.map_map]
+  rfl
+
+theorem filterMap_get {β} (t : Nat) (s : List (List β)) (h : ∀ r ∈ s, t < r.length) (ch : Nat) :
+    (s.filterMap (·[t]?))[ch]? = s[ch]?.bind (·[t]?) := by
+  induction s generalizing ch with
+  | nil => simp
+  | cons r rest ih =>
+    have hr : t < r.length := h r (by simp)
+    have : r[t]? = some r[t] := List.getElem?_eq_getElem hr
+    rw [List.filterMap_cons, this]
+    cases ch with
+    | zero => simp [this]
+    | succ k => simpa using ih (fun r' hr' => h r' (by simp [hr'])) k
+
+/-- element form: row `j`, channel `ch` of the tensor the metrics see is frame `j % z` of channel `ch` of slice `j / z` -/
+theorem eval3d_entry {β} (z : Nat) (vol : List (List (List β)))
+    (hshape : ∀ s ∈ vol, ∀ r ∈ s, r.length = z) (j ch : Nat) (hj : j < vol.length * z) :
+    (evalReshape z vol)[j]?.bind (·[ch]?) = (vol[j / z]?.bind (·[ch]?)).bind (·[j % z]?) := by
+  have hz : 0 < z := by
+    rcases Nat.eq_zero_or_pos z with h | h
+    · subst h; simp at hj
+    · exact h
+  have hs : j / z < vol.length := (Nat.div_lt_iff_lt_mul hz).mpr hj
+  rw [eval3d_rows_spec, List.getElem?_map, List.getElem?_range hj]
+  simp only [Option.map_some, Option.bind_some, evalSrc]
+  have hget : vol.getD (j / z) [] = vol[j / z] := by simp [List.getD, hs]
+  rw [hget, filterMap_get]
+  · simp [hs]
+  · intro r hr
+    rw [hshape _ (List.getElem_mem hs) r hr]; exact Nat.mod_lt _ hz
+
+/-- `sc * z` rows -/
+theorem eval3d_length {β} (z : Nat) (vol : List (List (List β))) : (evalReshape z vol).length = vol.length * z := by
+  rw [eval3d_rows_spec]; simp
+
+example : evalReshape 3 [[[1, 2, 3], [4, 5, 6]], [[7, 8, 9], [10, 11, 12]]] =
+    [[1, 4], [2, 5], [3, 6], [7, 10], [8, 11], [9, 12]] := by decide
+example : evalReshape 2 [[[1, 2]], [], [[5, 6]]] = [[1], [2], [], [], [5], [6]] := by decide
+
 end DirectVerif.C14
